@@ -112,6 +112,13 @@ def witness_inputs(rng):
         rows.append(R(s, "2022-03-%02d" % (3 + k), "Sell", 2, 9, af="Spouse"))
     w.append(("opening-positions-next-to-global-splits", {"rows": rows, "inits": {"BBB": (D(5), D(10000, 2)), "EEE": (D(7), D(7000, 2))}},
               "approot.rs per-security loop"))
+    # delta_list.rs automatic adjustment rows: several buying affiliates with EQUAL parts of a denied loss
+    rows = [R("FOO", "2022-01-03", "Buy", 40, 10)]
+    for k, af in enumerate(["Spouse", "Child", "Aunt", "Zed"]):
+        rows.append(R("FOO", "2022-03-%02d" % (2 + k), "Buy", 5, 8, af=af))
+    rows.append(R("FOO", "2022-03-10", "Sell", 20, 6))
+    rows.append(R("FOO", "2022-06-01", "Sell", 1, 9, af="Spouse"))
+    w.append(("equal-parts-of-a-denied-loss", {"rows": rows, "inits": {}}, "delta_list.rs order of the automatic adjustment rows"))
     # decimal sums whose last digit depends on the order: gains of three
     # securities, costs of three securities settling on one day / carried
     trs = sensitive_triples(rng, 8)
